@@ -4,4 +4,4 @@ set -e
 cd "$(dirname "$0")/amc"
 export CARGO_NET_OFFLINE=true
 mkdir -p ../target ../evidence
-cargo build --offline --bin amc
+cargo build --offline --bin amc --bin amcw
